@@ -241,3 +241,144 @@ def c03(a):
                    "without constant sub-expressions) are judged on every forwarded record; direction A forwards a record "
                    "only if some value or variable list is not identical to the TLC expectation")
     return v.finish()
+
+
+# ------------------------------------------------------------------------------------------------
+def file_verdicts(v, obs_path, verdicts, what, kind="text"):
+    """Turns non-ok judge verdicts into violations (loads the records lazily)."""
+    recs = None
+    n = 0
+    for case, (cls, verdict, entry) in verdicts.items():
+        if verdict == "ok":
+            continue
+        if recs is None:
+            recs = {}
+            for line in open(obs_path):
+                q = json.loads(line)
+                if "case" in q:
+                    recs[q["case"]] = q
+        q = recs.get(case, {})
+        text = vlib.uncps(q.get("text", []))
+        n += 1
+        v.violation({"text": text, "class": cls, "entry": entry, "record": q}, f"{what}: `{text[:200]}` ({cls}) {entry}: {verdict}")
+    return n
+
+
+LEX_FAMILIES = [("TLog", "ALog", 5, 6), ("TCmp", "ACmp", 6, 7), ("TSin", "ASin", 4, 5), ("TBrace", "ABrace", 5, 6),
+                ("TCall", "ACall", 5, 7)]
+
+
+def lex_enumeration(v, pid, tier, families, what):
+    """MC_Lex: every text up to a length over the family alphabet; TLC checks LexImpl == Lex (and the totality of the
+    front-end model) while printing the abstract expectation of each text, which the real tokenizer replays."""
+    ntexts = 0
+    for tab, alpha, lq, lt in families:
+        ml = lq if tier == "quick" else lt
+        tag = f"{pid}/mclex-{tab}"
+        cfg = work(tag + ".cfg")
+        write_cfg(cfg, {"T": ("<-", tab), "Alphabet": ("<-", alpha), "MaxLen": ml, "Emit": True, "CallStack": True,
+                        "BumpGuard": True}, invariants=["LexAgree", "CallAgree", "NoPanic", "EmitCases"])
+        res, summ, obsp = pipeline.gen_replay_shard("MC_Lex", cfg, tag, ["lex"], workers=16, timeout=3000)
+        if res.violated or res.error:
+            print(res.out[-3000:])
+            raise vlib.ToolError(f"MC_Lex({tab}): {res.violated or res.error}: tokenizer model and lexical rules disagree - spec bug")
+        v.add_tlc(res, f"MC_Lex[{tab}, len<={ml}]")
+        ntexts += summ["cases"]
+        v.cov["traces_validated_against_impl"] += summ["cases"]
+        v.cov["evaluations"] += summ["cases"]
+        if summ["forwarded"]:
+            r, verdicts = pipeline.judge_expr(obsp, f"{pid}-jlex-{tab}", module="Judge_Lex")
+            v.add_tlc(r, f"Judge_Lex[{tab}]")
+            file_verdicts(v, obsp, verdicts, what)
+        if summ["st"].get("panic"):
+            v.notes.append(f"{tab}: {summ['st']['panic']} tokenizer panics (judged above)")
+    v.notes.append(f"direction A (lexical): {ntexts} TLC-enumerated texts replayed through the real tokenize_and_analyze "
+                   f"(hook re-export); token streams identical to the abstract lexer's or judged by Judge_Lex")
+    return ntexts
+
+
+def lex_dir_b(v, pid, tier, what):
+    n = 4000 if tier == "quick" else 60000
+    jobs = []
+    for fam in ("lex-float", "lex-val", "lex-rnd"):
+        for mode, module in (("lex", "Judge_Lex"), ("expr", "Judge_Expr")):
+            tag = f"{pid}/fuzz-{fam}-{mode}"
+            args = ["--forward-all"] + (["--entries", "flat,deep"] if mode == "expr" else [])
+            jobs.append(lambda tag=tag, fam=fam, mode=mode, module=module, args=args: (tag, module) + pipeline.fuzz_replay(
+                tag, ["fuzz-expr", "--family", fam, "--n", str(n), "--stream", "3"], args, mode=mode))
+    res = parallel(jobs)
+    tot = 0
+    jres = parallel([(lambda t=t, m=m, p=p: (p, pipeline.judge_expr(p, t.replace("/", "-"), module=m))) for t, m, s_, p in res
+                     if not s_.get("crashed")], 6)
+    for t, m, s_, p in res:
+        if s_.get("crashed"):
+            v.violation({"pipeline": t, "detail": s_}, f"{what}: the library aborted the recorder process in {t}")
+        else:
+            tot += s_["cases"]
+            v.cov["traces_validated_against_impl"] += s_["cases"]
+            v.cov["evaluations"] += s_["cases"]
+    for p, (r, verdicts) in jres:
+        v.add_tlc(r, f"Judge[{os.path.basename(p)}]")
+        file_verdicts(v, p, verdicts, what)
+    v.notes.append(f"direction B (lexical): {tot} seeded texts built by extending/truncating/concatenating the names of the real "
+                   "float and value tables (mirrored from their make()) and of random tables, literal spellings, sign chains, "
+                   "Greek; judged at token level (Judge_Lex) and at API level (variables + value, Judge_Expr)")
+
+
+@register("C13")
+def c13(a):
+    v = Verdict("C13", a.tier, "model_checking")
+    what = "tokenisation differs from the documented lexical rules"
+    n = lex_enumeration(v, "C13", a.tier, LEX_FAMILIES[:4], what)
+    lex_dir_b(v, "C13", a.tier, what)
+    v.cov["rule"] = "every text up to length L over each family alphabet (exhaustive, distinct by construction); non-trivial = non-empty"
+    v.cov["distinct_nontrivial"] = n
+    v.cov["exhaustive"] = True
+    v.sample({"family": "TLog", "texts": ["log2(1", "lo g", "log10", "l-1."]})
+    v.assumptions.append("byte offsets abstracted to code points in LexImpl; unterminated/empty braces and alphabetic binary names "
+                         "glued to identifier characters are left unconstrained (not fixed by the documentation)")
+    return v.finish()
+
+
+def call_runs(tier):
+    if tier == "quick":
+        return [dict(table="T5c", n=2, maxun=1, ns=2), dict(table="T5c", n=3, maxun=1, ns=8), dict(table="T5c", n=4, maxun=0, ns=8)]
+    return [dict(table="T5c", n=2, maxun=2, ns=2), dict(table="T5c", n=3, maxun=2, ns=8), dict(table="T5c", n=4, maxun=1, ns=16),
+            dict(table="T8", n=3, maxun=0, ns=16)]
+
+
+@register("C08")
+def c08(a):
+    v = Verdict("C08", a.tier, "model_checking")
+    what = "call form op(a, b) does not mean ((a) op (b))"
+    jobs = []
+    for r in call_runs(a.tier):
+        for sh in range(r["ns"]):
+            tag = f"C08/mccall-{r['table']}-n{r['n']}-s{sh}"
+            cfg = work(tag + ".cfg")
+            write_cfg(cfg, {"T": ("<-", r["table"]), "NLeaves": r["n"], "MaxUn": r["maxun"], "WithConst": False, "Shard": sh,
+                            "NShards": r["ns"], "Emit": True, "CallStack": True, "BumpGuard": True, "FoldRule": "local"},
+                      invariants=["AbstractOk", "ImplOk", "EmitCases"])
+            jobs.append(lambda tag=tag, cfg=cfg, r=r: (r["table"], tag) + pipeline.gen_replay_shard(
+                "MC_Call", cfg, tag, ["expr", "--entries", "flat,flat_wo,deep,f2d"]))
+    obs, ncases = [], 0
+    for tab, tag, res, summ, obsp in parallel(jobs):
+        if res.violated or res.error:
+            print(res.out[-3000:])
+            raise vlib.ToolError(f"MC_Call {tag}: {res.violated or res.error}: call-form model does not refine the desugaring - spec bug")
+        v.add_tlc(res, tag)
+        ncases += summ["cases"]
+        v.cov["traces_validated_against_impl"] += summ["runs"]
+        v.cov["evaluations"] += summ["runs"]
+        obs.append((tab, obsp))
+    for tab in sorted({t for t, _ in obs}):
+        judge_and_classify(v, "C08", [p for t, p in obs if t == tab], f"dirA-{tab}", what)
+    lex_enumeration(v, "C08", a.tier, LEX_FAMILIES[4:], what)
+    v.notes.append(f"direction A: {ncases} (tree, non-empty subset of binary operators in call form, extra parentheses) cases; "
+                   "MC_Call proves the abstract desugaring inverts the rendering and that the tokenizer model with a stack of "
+                   "pending calls produces exactly the desugared tokens")
+    v.cov["rule"] = "all trees <= N leaves over T5c x all non-empty subsets of binary nodes in call form x 2-3 paren wrappings"
+    v.cov["distinct_nontrivial"] = ncases
+    v.cov["exhaustive"] = True
+    v.sample({"text": "f(1,g(2,x3))", "table": "T5c"})
+    return v.finish()
